@@ -51,6 +51,24 @@ def run(ctx: Ctx) -> None:
                     ms.append(ops.measure(U, case, 10 * i + ds, 100 * i + us, warm=(i % 4 == 0 and len(ms) == 0)))
             if len(ms) < 5:
                 continue
+            if i % 2 == 0 and case.diff:
+                # the same tensor objects used again (step 2 of a training loop): identical gradients, nothing may have been
+                # left behind on the caller's tensors by the first call
+                with ctx.guard(f"C02:{op}:second-call", key):
+                    t_same = ops._req(ops.make_inputs(case, 10 * i + 1, torch.float64), case)
+                    gs = []
+                    for rep_ in range(3):
+                        y_ = ops.call_impl(U, case, t_same, 7)
+                        gen_ = torch.Generator().manual_seed(100 * i + 5)
+                        up_ = torch.randn(y_.shape, generator=gen_, dtype=torch.float64)
+                        gs.append(torch.autograd.grad(y_, [t_same[n] for n in case.diff], up_, allow_unused=True))
+                    for n, g1, g2, g3 in zip(case.diff, *gs):
+                        if g1 is None:
+                            continue
+                        if not (torch.allclose(g1, g2, rtol=1e-12, atol=0) and torch.allclose(g1, g3, rtol=1e-12, atol=0)):
+                            ctx.violation(f"C02:{op}:{n}:repeat-same-tensors", "calling the op again on the same tensors gives a "
+                                          "different gradient (state left on the caller's tensors)", {**key, "wrt": n},
+                                          [float((g2 / g1).flatten()[0]), float((g3 / g1).flatten()[0])])
             sr = ops.model_request(case)
             if sr is not None:
                 sreqs.append(sr)
